@@ -416,3 +416,14 @@ def canon_nd(t, ranks=None):
         return r
 
     return go(t)
+
+
+def assume_ok(t):
+    """the success path: every is:Err / is:None test on the path is false, is:Ok / is:Some true"""
+    m = {}
+    for x in T.subterms(t):
+        if x[0] == 'app' and x[1] in ('is:Err', 'is:None'):
+            m[x] = T.FALSE
+        elif x[0] == 'app' and x[1] in ('is:Ok', 'is:Some'):
+            m[x] = T.TRUE
+    return T.subst(t, m) if m else t
